@@ -45,12 +45,26 @@ class Ctx:
         items = list(items)
         if self.ncpu <= 1 or len(items) <= 1:
             return [func(i) for i in items]
+        # every job runs in a fresh fork of this process (maxtasksperchild=1, one item per task): whatever process-level
+        # state the code under test keeps (caches, module globals) starts from the parent's state for every job, so a
+        # complete run is a deterministic function of (tree, tier, seed) however the pool schedules the jobs
         mp = multiprocessing.get_context('fork')
-        with mp.Pool(min(self.ncpu, len(items))) as pool:
-            return pool.map(func, items, chunksize)
+        njobs = min(len(items), self.ncpu * 6)
+        chunks = [items[i::njobs] for i in range(njobs)]       # deterministic partition, independent of pool timing
+        with mp.Pool(min(self.ncpu, njobs), maxtasksperchild=1) as pool:
+            parts = pool.map(_run_chunk, [(func, c) for c in chunks], 1)
+        out = [None] * len(items)
+        for i, part in enumerate(parts):
+            out[i::njobs] = part
+        return out
 
     def log(self, *a):
         print("[%s %.1fs]" % (self.pid, time.time() - self.t0), *a, file=sys.stderr, flush=True)
+
+
+def _run_chunk(arg):
+    func, chunk = arg
+    return [func(x) for x in chunk]
 
 
 def load_known():
@@ -109,7 +123,13 @@ def main():
 
     if args.replay:
         data = json.load(open(args.replay))
-        res = mod.replay(data['replay'], ctx)
+        if isinstance(data['replay'], dict) and data['replay'].get('rerun_whole_check'):
+            import subprocess
+            r = subprocess.run([sys.executable, '-m', 'vf.run', pid, '--tier', args.tier, '--no-evidence'],
+                               env=dict(os.environ, VERIF_CONFIRM_RUN='1'), capture_output=True, text=True)
+            res = [(data['key'], 'found again by a complete run')] if ('FOUND key=' + data['key']) in r.stdout.splitlines() else []
+        else:
+            res = mod.replay(data['replay'], ctx)
         if res:
             for key, what in res:
                 print("REPLAY reproduces: key=%s %s" % (key, what))
@@ -129,7 +149,14 @@ def main():
         return 2
     wall = time.time() - ctx.t0
 
+    if os.environ.get('VERIF_CONFIRM_RUN'):
+        # second, complete run started by the confirmation step below: just say what was found
+        sys.stdout = real_stdout
+        for key in sorted(ctx.violations):
+            print("FOUND key=%s" % key)
+        return 0
     known = {(k['property'], k['key']): k for k in load_known() if k.get('status') == 'known'}
+    rerun_keys = None
     rc = 0
     out_lines = []
     nviol_new = 0
@@ -148,10 +175,23 @@ def main():
                 r = None
             conf.append(sorted(k for k, _ in r) if r is not None else None)
         if conf[0] != conf[1] or conf[0] is None or key not in conf[0]:
-            print("HARNESS-ERROR %s: violation %s did not replay deterministically (%r)" % (pid, key, conf),
-                  file=sys.stderr)
-            print("  what: %s" % v['what'], file=sys.stderr)
-            return 2
+            # The isolated replay does not show it.  Either the harness is non-deterministic (a harness error), or the
+            # failure depends on what the implementation did earlier in the same process (hidden state such as a cache).
+            # Decide by a second complete run in a fresh process: complete runs are deterministic (see Ctx.pmap).
+            if rerun_keys is None:
+                import subprocess
+                env = dict(os.environ, VERIF_CONFIRM_RUN='1')
+                r = subprocess.run([sys.executable, '-m', 'vf.run', pid, '--tier', args.tier, '--no-evidence'], env=env,
+                                   capture_output=True, text=True)
+                rerun_keys = {l[len('FOUND key='):] for l in r.stdout.splitlines() if l.startswith('FOUND key=')}
+            if key not in rerun_keys:
+                print("HARNESS-ERROR %s: violation %s reproduced neither by its isolated replay (%r) nor by a second complete "
+                      "run" % (pid, key, conf), file=sys.stderr)
+                print("  what: %s" % v['what'], file=sys.stderr)
+                return 2
+            v['what'] += "  [reproduced by a second complete run in a fresh process, not by the isolated replay: the failure " \
+                         "depends on operations performed earlier in the same process]"
+            v['replay'] = {'rerun_whole_check': True, 'key': key, 'isolated': v['replay']}
         if (pid, key) in known:
             out_lines.append("KNOWN-FINDING: property=%s %s [%s]" % (pid, known[(pid, key)]['what'], key))
             continue
